@@ -4,7 +4,8 @@ from . import core
 ASSUME = [
     "POSIX path semantics (no volume names); the recording afero.Fs underneath ChrootFs sees every call made on behalf of a specification",
     "segment alphabet {'', '.', '..', 'a', 'b.c', 'd e'}; names up to the stated length, 4 roots of depth 0..3, each name spelled relative and absolute",
-    "import driver: one importing file in <root>/p, names containing spaces are not valid import paths and are skipped there",
+    "import driver: one importing file in <root>/p, names containing spaces are not valid import paths and are skipped there; "
+    "an import whose resolved path has the shape host.tld/owner/repo/... is a remote import for the reader and is not judged",
 ]
 
 
@@ -17,6 +18,13 @@ def check_c18(ctx):
     for s in scn:
         s["imports"] = len(s["segs"]) <= implen
     events, _ = core.vh_sharded(ctx, "chroot", scn, timeout=3000)
+    # an import whose in-root path reads <host.tld>/<owner>/<repo>/... is a remote import for the reader
+    # (golden-retriever's repository pattern), not a local file access: such probes are not judged
+    import re
+    remote = re.compile(r"^(\w+\.)+\w+(/[\w-]+){2}")
+    nremote = len(events)
+    events = [e for e in events if not (e["e"] == "imp" and remote.match("/".join(e.get("target") or [])))]
+    nremote -= len(events)
     # trace ids must be unique across shards
     for i, e in enumerate(events):
         e["t"] = i + 1
@@ -36,6 +44,6 @@ def check_c18(ctx):
                                             "event": e})
     cov = {"states": mc.distinct, "transitions": mc.generated,
            "traces_validated_against_impl": len(events), "wrapper_calls_judged": nops, "import_compiles_judged": nimp,
-           "names_enumerated": len(scn), "exhaustive": True,
+           "names_enumerated": len(scn), "exhaustive": True, "import_probes_skipped_as_remote_paths": nremote,
            "samples": [events[0], events[len(events) // 2]] if events else []}
     return core.finish(ctx, "model_checking", cov, ASSUME)
